@@ -80,6 +80,28 @@ theorem strict_native_propagates (cfg : Cfg) (fr : Frame) (k : Nat) (pre post : 
       simp [builtin, isStrictPrim, hl]
   exact ⟨hb, by rw [eval_call_unbound hfree]; exact hb⟩
 
+/-- The same without fuel bookkeeping: if the expressions of `pre` evaluate (each with some fuel, in
+sequence) to non-error values and then `e` evaluates (with some fuel) to the error value `.err m`,
+then with every sufficiently large fuel `evalList` of `pre ++ e :: post` reports that error in the
+state after `e`, and so does the call of any strict native on these arguments. -/
+theorem leftmost_error_enough_fuel (cfg : Cfg) (fr : Frame) (j : Nat) (pre post : List Expr) (e : Expr)
+    (st st1 st2 : St) (vs : List Val) (m : String)
+    (hpre : SeqValsAny cfg fr pre st vs st1)
+    (he : eval j cfg fr e false st1 = (.val (.err m), st2)) :
+    ∃ N, ∀ n, N ≤ n →
+      evalList n cfg fr (pre ++ e :: post) st = (.error (.val (.err m)), st2) ∧
+      (∀ f tail, isStrictPrim f = true → fr.get f = none →
+        eval (n + 3) cfg fr (.call f (pre ++ e :: post)) tail st = (.val (.err m), st2)) := by
+  obtain ⟨N0, hN0⟩ := hpre.enough
+  refine ⟨max N0 (j + 1 + pre.length), fun n hn => ?_⟩
+  obtain ⟨k, rfl⟩ : ∃ k, n = k + 1 + pre.length := ⟨n - 1 - pre.length, by omega⟩
+  have hk : eval k cfg fr e false st1 = (.val (.err m), st2) := eval_mono (by omega) he (by simp)
+  have hs := hN0 (k + 1 + pre.length) (by omega)
+  have hl := evalList_leftmost_error cfg fr k pre post e st st1 st2 vs m hs hk
+  refine ⟨hl, fun f tail hf hfree => ?_⟩
+  rw [eval_call_unbound hfree, builtin_strict hf]
+  simp [strictCall, hf, hl]
+
 /-- Tuple/struct and array construction with an erroring item yields the leftmost such error. -/
 theorem constructor_propagates (cfg : Cfg) (fr : Frame) (k : Nat) (pre post : List Expr) (e : Expr)
     (st st1 st2 : St) (vs : List Val) (m : String) (tail : Bool)
